@@ -16,7 +16,7 @@ open Asl Asl.ChoiceLemmas
 the rule matches **exactly when** the Variable exists, both operands have the operator's
 type and the relation holds (`Matches` is the declarative relation: numbers numerically,
 strings by code point, booleans by identity, timestamps by instant, `GlobMatch`). -/
-theorem cmp_sound_complete (e : Env) (c : Cmp) (var : Str) (k : Json) :
+theorem cmp_sound_complete (e : CEnv) (c : Cmp) (var : Str) (k : Json) :
     evalRule e (.cmp c var k) = true ↔
       ∃ x, e.lookup var = some x ∧ HasType c x ∧ HasType c k ∧ Matches c x k := by
   simp only [evalRule]
@@ -31,12 +31,12 @@ theorem cmp_sound_complete (e : Env) (c : Cmp) (var : Str) (k : Json) :
     simp [hx, (evalCmp_iff c x k).mpr hm]
 
 /-- a missing Variable never matches a value comparison -/
-theorem cmp_missing_never_matches (e : Env) (c : Cmp) (var : Str) (k : Json)
+theorem cmp_missing_never_matches (e : CEnv) (c : Cmp) (var : Str) (k : Json)
     (h : e.lookup var = none) : evalRule e (.cmp c var k) = false := by
   simp [evalRule, h]
 
 /-- a value of the wrong type never matches a value comparison -/
-theorem cmp_wrong_type_never_matches (e : Env) (c : Cmp) (var : Str) (k x : Json)
+theorem cmp_wrong_type_never_matches (e : CEnv) (c : Cmp) (var : Str) (k x : Json)
     (hx : e.lookup var = some x) (h : ¬ HasType c x) : evalRule e (.cmp c var k) = false := by
   cases hr : evalRule e (.cmp c var k) with
   | false => rfl
@@ -45,7 +45,7 @@ theorem cmp_wrong_type_never_matches (e : Env) (c : Cmp) (var : Str) (k x : Json
     rw [hx] at hx'; cases hx'; exact absurd ht h
 
 /-- a constant of the wrong type never matches either -/
-theorem cmp_wrong_constant_never_matches (e : Env) (c : Cmp) (var : Str) (k : Json)
+theorem cmp_wrong_constant_never_matches (e : CEnv) (c : Cmp) (var : Str) (k : Json)
     (h : ¬ HasType c k) : evalRule e (.cmp c var k) = false := by
   cases hr : evalRule e (.cmp c var k) with
   | false => rfl
@@ -55,7 +55,7 @@ theorem cmp_wrong_constant_never_matches (e : Env) (c : Cmp) (var : Str) (k : Js
 
 /-- the `…Path` variants compare against the value the path references (and do not match
 when it references nothing) -/
-theorem path_variant (e : Env) (c : Cmp) (var p : Str) :
+theorem path_variant (e : CEnv) (c : Cmp) (var p : Str) :
     evalRule e (.cmpPath c var p) = true ↔
       ∃ k, e.lookup p = some k ∧ evalRule e (.cmp c var k) = true := by
   simp only [evalRule]
@@ -73,7 +73,7 @@ theorem path_variant (e : Env) (c : Cmp) (var p : Str) :
 /-- IsPresent reports whether the Variable selects anything; the other five type tests
 report the type fact of the selected value, and say nothing (match neither `true` nor
 `false`) when there is no value. -/
-theorem is_tests (e : Env) (t : IsOp) (var : Str) (b : Bool) :
+theorem is_tests (e : CEnv) (t : IsOp) (var : Str) (b : Bool) :
     evalRule e (.is t var b) = true ↔
       (t = .present ∧ ((∃ x, e.lookup var = some x) ↔ b = true)) ∨
       (t ≠ .present ∧ ∃ x, e.lookup var = some x ∧ (TypeFact t x ↔ b = true)) := by
@@ -91,25 +91,25 @@ theorem is_tests (e : Env) (t : IsOp) (var : Str) (b : Bool) :
 
 /-! ### And / Or / Not over arbitrary rule trees -/
 
-theorem and_all (e : Env) (rs : List Rule) :
+theorem and_all (e : CEnv) (rs : List Rule) :
     evalRule e (.and rs) = true ↔ ∀ r ∈ rs, evalRule e r = true := by
   simp [evalRule, evalAll_iff]
 
-theorem or_any (e : Env) (rs : List Rule) :
+theorem or_any (e : CEnv) (rs : List Rule) :
     evalRule e (.or rs) = true ↔ ∃ r ∈ rs, evalRule e r = true := by
   simp [evalRule, evalAny_iff]
 
-theorem not_neg (e : Env) (r : Rule) : evalRule e (.not r) = !evalRule e r := by
+theorem not_neg (e : CEnv) (r : Rule) : evalRule e (.not r) = !evalRule e r := by
   simp [evalRule]
 
-theorem double_negation (e : Env) (r : Rule) : evalRule e (.not (.not r)) = evalRule e r := by
+theorem double_negation (e : CEnv) (r : Rule) : evalRule e (.not (.not r)) = evalRule e r := by
   simp [evalRule]
 
-theorem de_morgan_and (e : Env) (rs : List Rule) :
+theorem de_morgan_and (e : CEnv) (rs : List Rule) :
     evalRule e (.not (.and rs)) = evalRule e (.or (rs.map .not)) := by
   simp [evalRule, evalAny_map_not]
 
-theorem de_morgan_or (e : Env) (rs : List Rule) :
+theorem de_morgan_or (e : CEnv) (rs : List Rule) :
     evalRule e (.not (.or rs)) = evalRule e (.and (rs.map .not)) := by
   simp [evalRule, evalAll_map_not]
 
@@ -137,7 +137,7 @@ theorem glob_no_other_meta (p s : Str) (h1 : '*' ∉ p) (h2 : '\\' ∉ p) :
 
 /-- String comparisons are by code point: StringLessThan matches exactly when the value
 precedes the constant in the lexicographic order of code points. -/
-theorem strings_by_codepoint (e : Env) (r : Rel) (var : Str) (b : Str) :
+theorem strings_by_codepoint (e : CEnv) (r : Rel) (var : Str) (b : Str) :
     evalRule e (.cmp (.str r) var (.str b)) = true ↔
       ∃ a, e.lookup var = some (.str a) ∧ r.Holds CodeLt a b := by
   simp only [evalRule]
@@ -153,7 +153,7 @@ theorem strings_by_codepoint (e : Env) (r : Rel) (var : Str) (b : Str) :
     simp [ha, evalCmp, (evalStr_iff r a b).mpr hr]
 
 /-- Timestamp comparisons are by the instant denoted, whatever the offset notation. -/
-theorem timestamps_by_instant (e : Env) (r : Rel) (var : Str) (b : Str) :
+theorem timestamps_by_instant (e : CEnv) (r : Rel) (var : Str) (b : Str) :
     evalRule e (.cmp (.ts r) var (.str b)) = true ↔
       ∃ a ta tb, e.lookup var = some (.str a) ∧ parseTs a = some ta ∧ parseTs b = some tb ∧
         r.Holds (· < ·) ta.instant tb.instant := by
@@ -168,7 +168,7 @@ theorem timestamps_by_instant (e : Env) (r : Rel) (var : Str) (b : Str) :
 /-! ### rule order, Default, States.NoChoiceMatched -/
 
 /-- rules are tried in array order and the first match wins -/
-theorem first_match_wins (e : Env) (pre post : List (Rule × Str)) (r : Rule) (n : Str)
+theorem first_match_wins (e : CEnv) (pre post : List (Rule × Str)) (r : Rule) (n : Str)
     (d : Option Str) (hpre : ∀ c ∈ pre, evalRule e c.1 = false) (hr : evalRule e r = true) :
     choose e (pre ++ (r, n) :: post) d = .ok n := by
   have : firstMatch e (pre ++ (r, n) :: post) = some n :=
@@ -176,12 +176,12 @@ theorem first_match_wins (e : Env) (pre post : List (Rule × Str)) (r : Rule) (n
   simp [choose, this]
 
 /-- with no match the Default is taken -/
-theorem default_taken (e : Env) (cs : List (Rule × Str)) (d : Str)
+theorem default_taken (e : CEnv) (cs : List (Rule × Str)) (d : Str)
     (h : ∀ c ∈ cs, evalRule e c.1 = false) : choose e cs (some d) = .ok d := by
   simp [choose, (firstMatch_none_iff e cs).mpr h]
 
 /-- with no match and no Default the state fails with States.NoChoiceMatched -/
-theorem no_choice_matched (e : Env) (cs : List (Rule × Str))
+theorem no_choice_matched (e : CEnv) (cs : List (Rule × Str))
     (h : ∀ c ∈ cs, evalRule e c.1 = false) :
     choose e cs none = .error .noChoiceMatched ∧
       ChoiceErr.noChoiceMatched.name = "States.NoChoiceMatched" := by
@@ -189,7 +189,7 @@ theorem no_choice_matched (e : Env) (cs : List (Rule × Str))
 
 /-- and nothing else can happen: every transition a Choice state takes is the first
 matching rule's `Next`, or the Default when no rule matches. -/
-theorem choose_ok_only_if (e : Env) (cs : List (Rule × Str)) (d : Option Str) (n : Str)
+theorem choose_ok_only_if (e : CEnv) (cs : List (Rule × Str)) (d : Option Str) (n : Str)
     (h : choose e cs d = .ok n) :
     (∃ pre r post, cs = pre ++ (r, n) :: post ∧ (∀ c ∈ pre, evalRule e c.1 = false) ∧
         evalRule e r = true) ∨
@@ -208,7 +208,7 @@ theorem choose_ok_only_if (e : Env) (cs : List (Rule × Str)) (d : Option Str) (
 
 def exInput : Json := .obj [("v".toList, .num 5), ("s".toList, .str "abc".toList),
   ("t".toList, .str "2020-01-01T05:30:00+05:30".toList)]
-def exEnv : Env := { input := exInput, ctx := .obj [] }
+def exEnv : CEnv := { input := exInput, ctx := .obj [] }
 
 /-- cmp_sound_complete is not vacuous: a numeric comparison that matches … -/
 example : evalRule exEnv (.cmp (.num .lt) "$.v".toList (.num 7)) = true := by decide
